@@ -252,7 +252,9 @@ static void op_dns_msg(const uint8_t *in, size_t n, long ph) {
 
 /* ------------------------------------------------------------------ RADIUS */
 /* ph 0: radius_pkt_chk only; on accepted packets: 1 attribute access at every attribute, 2 the same at the
- * end position, 3 find, 4 collect values, 5 message authenticator + verify */
+ * end position, 3 find, 4 collect values, 5 message authenticator + verify, 6 message authenticator check aimed at
+ * every attribute boundary (the offset != 0 entry), 7 collect the values of the LAST attribute's type into buffers of
+ * 253 / exactly its size / one less */
 static void op_rad(const uint8_t *in, size_t n, long ph) {
 	uint8_t *p = xdup(0, in, n);
 	int rc; size_t L = 0, off, nb = 0; static size_t bounds[2100];
@@ -303,6 +305,25 @@ find:
 			chk_le("radius_pkt_attr_get_data_to_buf", "size", got, 40);
 		}
 	}
+	if (ph == 6) {
+		uint8_t key[1] = { 'k' };
+		for (size_t i = 0; i < nb; i++) {
+			size_t o = 0;
+			FN("radius_pkt_attr_msg_authenticator_chk");
+			radius_pkt_attr_msg_authenticator_chk((rad_pkt_hdr_p)p, bounds[i], key, 1, 0, NULL, &o);
+			chk_le("radius_pkt_attr_msg_authenticator_chk", "offset", o, L);
+		}
+	}
+	if (ph == 7 && nb >= 2) {
+		size_t lo = bounds[nb - 2], dl = (size_t)p[lo + 1] - 2, caps[3] = { 253, dl, dl ? dl - 1 : 0 };
+		uint8_t t = p[lo];
+		for (size_t k = 0; k < 3; k++) {
+			uint8_t *out = xbuf(1, caps[k]); size_t got = 0;
+			FN("radius_pkt_attr_get_data_to_buf");
+			radius_pkt_attr_get_data_to_buf((rad_pkt_hdr_p)p, 0, 0, t, out, caps[k], &got);
+			chk_le("radius_pkt_attr_get_data_to_buf", "size", got, caps[k]);
+		}
+	}
 	if (ph == 5) {
 		size_t o = 0; uint8_t key[1] = { 'k' };
 		FN("radius_pkt_attr_msg_authenticator_chk");
@@ -311,6 +332,18 @@ find:
 		FN("radius_pkt_verify");
 		radius_pkt_verify((rad_pkt_hdr_p)p, key, 1, NULL);
 	}
+}
+
+/* radius_pkt_attr_password_decode called directly: enc = exactly n received octets; variant 0 = in place (buf = enc,
+ * buf_size = n: what radius_pkt_verify does inside the received packet), else a separate exact-size buffer of cap */
+static void op_rad_pw(const uint8_t *in, size_t n, long variant, long cap) {
+	uint8_t a16[16], key[1] = { 'k' }, *enc, *auth, *buf; size_t out = (size_t)-1; int rc;
+	memset(a16, 0x11, sizeof(a16));
+	enc = xdup(0, in, n); auth = xdup(2, a16, 16);
+	if (variant == 0) { buf = enc; cap = (long)n; } else buf = xbuf(1, (size_t)cap);
+	FN("radius_pkt_attr_password_decode");
+	rc = radius_pkt_attr_password_decode(auth, enc, n, key, 1, buf, (size_t)cap, &out);
+	printf(" rc=%d out=%zd cap=%ld", rc, (ssize_t)out, cap);
 }
 
 /* ------------------------------------------------------------------ DHCPv4 */
@@ -541,6 +574,7 @@ static void run_case(size_t idx) {
 	else if (!strcmp(op, "dns_lbl")) op_dns_lbl(in, n, a1);
 	else if (!strcmp(op, "dns_msg")) op_dns_msg(in, n, a1);
 	else if (!strcmp(op, "rad")) op_rad(in, n, a1);
+	else if (!strcmp(op, "rad_pw")) op_rad_pw(in, n, a1, a2);
 	else if (!strcmp(op, "dhcp")) op_dhcp(in, n);
 	else if (!strcmp(op, "http_req")) op_http_req(in, n);
 	else if (!strcmp(op, "http_resp")) op_http_resp(in, n);
